@@ -19,6 +19,21 @@ sys.path.insert(0, os.path.dirname(os.path.abspath(__file__)))
 from props import PROPS  # noqa: E402
 
 
+def use_alt_repo(workdir):
+    """VERIF_REPO=<dir> (developer aid, used to run the checks against a scratch copy of
+    d5/tengo with a seeded change while /repo stays untouched): a go.mod whose replace
+    directive points at that tree."""
+    alt = os.environ.get('VERIF_REPO')
+    if not alt or alt == '/repo':
+        return
+    mod = open(os.path.join(HARNESS, 'go.mod')).read().replace('=> /repo', '=> ' + alt)
+    mf = os.path.join(workdir, 'alt.mod')
+    open(mf, 'w').write(mod)
+    shutil.copy(os.path.join(HARNESS, 'go.sum'), os.path.join(workdir, 'alt.sum'))
+    GOENV['GOFLAGS'] = '-mod=mod -modfile=' + mf
+    GOENV['SYMGO_MODFILE'] = mf
+
+
 def log(*a):
     print(*a, flush=True)
 
@@ -212,6 +227,7 @@ def main():
     gen_registry()
     seed = int(os.environ.get('VERIF_SEED', '0') or 0)
     workdir = tempfile.mkdtemp(prefix='verif_%s_' % pid)
+    use_alt_repo(workdir)
     try:
         if sys.argv[2] == '--replay':
             return do_replay(pid, prop, sys.argv[3], workdir)
@@ -245,7 +261,7 @@ def do_check(pid, prop, tier, seed, workdir):
         return 2
     findings = load_findings()
     rp = Replayer(workdir, overlay, race=prop.get('race', False))
-    repdir = os.path.join(ROOT, 'replays', pid)
+    repdir = os.path.join(ROOT, 'replays', pid + ('.alt' if os.environ.get('VERIF_REPO') else ''))
     shutil.rmtree(repdir, ignore_errors=True)
     os.makedirs(repdir, exist_ok=True)
     confirmed, known, unconfirmed, unclean = [], [], [], []
@@ -388,7 +404,7 @@ def write_evidence(pid, prop, tier, seed, reports, confirmed, known, unclean, wa
         'assumptions': prop.get('assumptions', []), 'wall_s': round(wall, 2),
         'violations': len(confirmed),
     }
-    name = pid + ('.partial' if os.environ.get('VERIF_ONLY') else '') + '.json'
+    name = pid + ('.partial' if os.environ.get('VERIF_ONLY') or os.environ.get('VERIF_REPO') else '') + '.json'
     json.dump(ev, open(os.path.join(ROOT, 'evidence', name), 'w'), indent=1)
 
 
